@@ -264,6 +264,25 @@ for _k, _v in _ADD10.items():
     if _k in CHECKS and _v not in CHECKS[_k]["text"]:
         CHECKS[_k]["text"] += _v
 
+_ADD11 = {
+    "C01": " Added: R6 — the routine that turns the matched response into the call's result returns only on a path that established that the message has no error member (`is None`; an empty error object is still an error answer).",
+    "C02": " Added: R7 — an emitting helper of protocol/messages does not pass a caller's number through a float-typed model field on its way into the params.",
+    "C04": " Added: R6 — the session record type has no default for its version and every construction of it inside the package names the version.",
+    "C05": " R4 also covers the histories in which a side channel's receiver has been closed by its owner: the put raises and the message must still reach the main stream.",
+    "C06": " Added: R7 — the codec's dumps reaches its standard-library arm whenever the fast backend raises (lifted from C17-R1/R4).",
+    "C07": " R5 follows the tables through annotated locals and through parameters whose default is the table.",
+    "C11": " R5 requires the recorded session id to be the response header's value itself; R2 adds that no parsed object is filtered by the truthiness of result / error / id / params.",
+    "C13": " Added: R5 — inside the stdio client only set_protocol_version sets the batch processor's version (the reader and router never do).",
+    "C15": " Added: R9 — no carrier judges a parsed wire object by the truthiness of result / error / id / params.",
+    "C16": " Added: R10 — every path of StdioTransport.__aexit__ that may hold a client awaits the client's __aexit__.",
+    "C17": " Added: R7 — the reader's incremental decoder is never reset or replaced between reads (lifted from C05-R1).",
+    "C19": " Added: R7 — on every path of the dispatcher that invokes a handler under a session id, update_activity(session_id) has been called first (requests and notifications alike).",
+    "C20": " Added: R9 — StdioParameters' model configuration, with what it inherits, rewrites or refuses nothing.",
+}
+for _k, _v in _ADD11.items():
+    if _k in CHECKS and _v not in CHECKS[_k]["text"]:
+        CHECKS[_k]["text"] += _v
+
 _COMMON_NOTE = " Reading of the sources: equivalent idioms are normalised on the parsed tree (sa/normalize.py), re-exports are followed, and functions that are not in the reference decomposition (sa/units_snapshot.json) are read at their call sites (sa/inline.py); if that reading is undecided the sources are read as written, where new helpers are opaque calls: that second reading can clear the property or stay undecided, and a finding only it produces is reported as undecided (exit 2) together with what the first reading could not read."
 for _k in CHECKS:
     if _COMMON_NOTE not in CHECKS[_k]["note"]:
